@@ -1,6 +1,6 @@
 """C01 - bound constraints are never violated at any evaluation point (exact, no tolerance)."""
 import numpy as np
-from .. import engine, gen, oracles
+from .. import engine, gen, oracles, campaign
 
 ID = "C01"
 NUM = 1
@@ -58,6 +58,7 @@ def make_cfg(seed, i):
         cfg["user_params"].pop("init.run_in_parallel", None)
         cfg["user_params"].pop("init.random_directions_make_orthogonal", None)
         cfg["args"]["maxfun"] = min(cfg["args"]["maxfun"], 60)
+    campaign.maybe_failpoint(cfg, rng, p=0.08)
     return cfg
 
 
